@@ -2,6 +2,7 @@ import FpgoVerif.Props.C17
 /-! `#print axioms` for every property theorem of C17; parsed by `check`. -/
 #print axioms FpgoVerif.C17.C17_url
 #print axioms FpgoVerif.C17.C17_url_string
+#print axioms FpgoVerif.C17.C17_template_wellformed
 #print axioms FpgoVerif.C17.C17_url_side_condition_needed
 #print axioms FpgoVerif.C17.C17_pinned_url_refuted
 #print axioms FpgoVerif.C17.C17_table
